@@ -87,14 +87,18 @@ CFG = {'assumptions': ['f64 values cross the boundary as bit patterns; digests a
                'holes / polyominoes (full outputs compared with each other and with the Lean model), the rest digests of '
                'BooleanOps::{intersection,union,difference,xor}, unary_union, clip, stitch with up to 60 rings, '
                'earcut/unconstrained/constrained(-outer) Delaunay triangulation, triangulate-then-stitch, concave_hull, '
-               'k_nearest_concave_hull, outliers, convex_hull, simplify/simplify_vw/simplify_vw_preserve, relate; 1 case in '
-               '41 is large (>8000 segments: i_overlay fragment splitter on the rayon pool), 1 in 401 exceeds 32768 segments '
-               '(parallel sort). Cross-process stream (C20.xproc): the same inputs in 5 fresh processes with '
+               'k_nearest_concave_hull, outliers, convex_hull, simplify/simplify_vw/simplify_vw_preserve, relate, and the geo-types '
+               'rayon iterators (par_iter / par_iter_mut / into_par_iter on MultiPolygon, MultiLineString, MultiPoint with up to '
+               '3000 members, compared with the sequential map); 1 case in '
+               '41 is large (>8000 segments: i_overlay fragment splitter on the rayon pool); inputs above 32768 segments are not '
+               'generated (the engine runs away in memory on them). One stitch case in 7 violates the documented precondition '
+               '(duplicate, missing, overlapping or degenerate triangle). Cross-process stream (C20.xproc): the same inputs in 5 fresh processes with '
                'RAYON_NUM_THREADS=1,2,16 and default x2; all answers must be identical. A case is distinct by its input text.',
        'trusted_base': ['NOT PROVED (sampled only): rayon scheduling inside i_overlay, hash seeds of fresh processes, '
                         'allocation addresses; spade / earcutr / rstar internals',
-                        'the geo-types rayon iterators (par_iter on Multi*) are not called by any geo algorithm and are not '
-                        'exercised']}
+                        'the geo-types rayon iterators (par_iter on Multi*) are not called by any geo algorithm; they delegate to '
+                        "rayon's slice/Vec iterators and are exercised through the harness only (harness/Cargo.toml.in gained a "
+                        'rayon dependency for that)']}
 
 MANIFEST = {'note': 'PARTIAL. Trusted: Lean 4.33 kernel (axioms propext, Classical.choice, Quot.sound only; audited per theorem '
                     'each run; no sorry, no native_decide, no added axioms); the Lean compiler running the model; the Rust '
@@ -106,4 +110,30 @@ MANIFEST = {'note': 'PARTIAL. Trusted: Lean 4.33 kernel (axioms propext, Classic
             'technique': 'Lean 4 proof (order-independence of the stitch bookkeeping; purity of the engine glue) + '
                          'model/implementation correspondence for stitch_triangulation + configuration sweep (in-process '
                          'repetition, fresh processes, thread-pool sizes) with exact digests',
-            'text': 'see lean/GeoProofs/Props/C20.lean'}
+            'text': 'PARTIAL. Proved in Lean for the model (GeoModel/Stitch.lean mirrors stitch.rs line by line; the two maps of '
+                    'stitch_multipolygon_from_lines carry their iteration orders as explicit parameters it1, it2; the '
+                    'relate-backed contains tests are parameters): (1) assemble_order_dep_witness, '
+                    'assemble_children_order_dep_witness, buildIdxs_keys_order_witness: with hash-map iteration (any '
+                    'permutation) the order of the output polygons and of the interiors of a polygon depends on the iteration '
+                    'order - the pinned-tree defect F9 (reproduced through the harness: twelve separate squares stitched twice '
+                    'in one process give different polygon orders; repaired by a fix: commit replacing both HashMaps by BTreeMaps). '
+                    '(2) assemble_ordered_iteration_unique, assemble_ordered_eq_fixed, stitchTriangles_eq_hash_ordered, '
+                    'orderedIter_unique, sortKeys_ordered: with maps that iterate in ascending key order (BTreeMap) the result is '
+                    'the same for every such map, whatever its layout or insertion history: nothing but the input reaches the '
+                    'result. (3) polygons_idxs_spec: for every visiting order, ring k becomes a polygon iff some ring names it (an '
+                    'even ring itself, an odd ring its direct parent = the last parent with the most parents) and its interiors are '
+                    'the odd rings naming it in visiting order; assemble_hash_perm, findAndFixHoles_equiv, '
+                    'stitchTrianglesHash_perm: under arbitrary iteration orders the pinned code fails exactly when the fixed code '
+                    'does and otherwise returns the fixed result up to the order of the polygons and of each polygon\'s interiors '
+                    '(the repair changes order only). (4) purity of the engine glue (GeoModel/DetGlue.lean; engines are relations '
+                    '"may answer", because schedules are not modelled): multiPolygonFromShapes_length/_getElem?/_reverse, '
+                    'multiLineStringFromPaths_eq, trianglesOfFaces_getElem?, trianglesOfIndices_length, constrainedOfOuter_sublist: '
+                    'results are maps / sub-sequences of the engine answer in the engine order; boolOp_functional, clip_functional, '
+                    'unaryUnion_functional, earcut_functional: if the engine answer is determined by its input then so are '
+                    'boolean_op, clip, unary_union, earcut_triangles. NOT PROVED and not provable with a pure model: that i_overlay '
+                    '(rayon pool), spade, earcutr, rstar answer identically under every schedule, process and pool size. That half '
+                    'is a configuration SWEEP (sampling): each case twice in-process; the same inputs in 5 fresh processes with '
+                    'RAYON_NUM_THREADS=1,2,16 and default; outputs compared as exact bit patterns with member order (stitch: full '
+                    'output, also against the Lean model; others: FNV-1a digests), including inputs of 9-10 thousand segments on '
+                    'which the parallel fragment splitter of i_overlay runs. Inputs above 32768 segments (parallel sort) are not '
+                    'swept: i_overlay 2.0.5 runs away in memory on most of them, identically for every pool size.'}
